@@ -172,6 +172,17 @@ def applyTokens : List (List Char) → Position → List BB → List String → 
     | none => none
     | some (pos, hist, o) => applyTokens ts pos hist (out ++ o)
 
+/-- `char::is_whitespace` (Unicode `White_Space`): what `str::trim` removes. A token produced by `split_ascii_whitespace` can still
+contain U+000B, U+0085, U+00A0, U+1680, U+2000…U+200A, U+2028, U+2029, U+202F, U+205F, U+3000. -/
+def isRustWhitespace (c : Char) : Bool :=
+  let n := c.toNat
+  (9 ≤ n && n ≤ 13) || n == 0x20 || n == 0x85 || n == 0xA0 || n == 0x1680 || (0x2000 ≤ n && n ≤ 0x200A) ||
+  n == 0x2028 || n == 0x2029 || n == 0x202F || n == 0x205F || n == 0x3000
+
+/-- `str::trim`. -/
+def rustTrim (s : List Char) : List Char :=
+  ((s.dropWhile isRustWhitespace).reverse.dropWhile isRustWhitespace).reverse
+
 /-- `uci::position::position` (tokens after the word `position`). -/
 def doPosition (ar : Arith) (s : UState) (toks : List (List Char)) : Option (UState × List String) :=
   let (fen, rest) : List Char × List (List Char) :=
@@ -185,7 +196,7 @@ def doPosition (ar : Arith) (s : UState) (toks : List (List Char)) : Option (USt
       else ([], [])   -- NB: the iterator has consumed this token; nothing further is parsed as moves? see below
     | [] => ([], [])
   -- `fen.trim()`
-  let trimmed := ((fen.dropWhile (· == ' ')).reverse.dropWhile (· == ' ')).reverse
+  let trimmed := rustTrim fen
   match setFen ar s.pos.frc trimmed with
   | none => none
   | some p =>
